@@ -319,7 +319,53 @@ class RandomQueries:
             q['where'] = {'k': 'and', 'args': [{'k': 'un', 'op': 'isnotnull', 'a': self.col('k')}, {'k': 'un', 'op': 'isnotnull', 'a': self.col('s')}]} \
                 if r.random() < 0.8 else q['where']
             return q
+        if family == 'nested':
+            return self.nested(r.choice([1, 1, 2]))
         raise ValueError(family)
+
+    def nested(self, depth):
+        """outer query over FROM (inner): inner outputs are all named (aliases / bare columns), the outer one addresses them by
+        name, by position or through the wildcard, possibly with hidden ordering / grouping keys"""
+        r = self.rng
+        inner = self.query(r.choice(['plain', 'order', 'group', 'order'])) if depth <= 1 or r.random() < 0.6 else self.nested(depth - 1)
+        inner['pivot'] = []
+        names = ['p' if (t['as'] == '' and t['e'].get('n') == 'p') else t['as'] for t in inner['targets']] if not inner.get('star') else None
+        if names is None or any(not n for n in names):
+            names = inner.get('_names') or ['p']
+        col = self.col
+        q = {'targets': [], 'where': {'k': 'none'}, 'group': [], 'having': {'k': 'none'}, 'order': [], 'pivot': [], 'distinct': False,
+             'limit': -1, 'sub': inner, 'star': False}
+        k = r.random()
+        if k < 0.3:
+            q['star'] = True
+            q['_names'] = names
+        elif k < 0.75:
+            sel = r.sample(names, r.randint(1, len(names)))
+            q['targets'] = [{'e': col(n), 'as': ''} for n in sel]
+            q['_names'] = sel
+        else:
+            g = r.choice(names)
+            q['targets'] = [{'e': col(g), 'as': 'gg'}, {'e': {'k': 'agg', 'f': 'count', 'a': {'k': 'star'}}, 'as': 'nn'}]
+            q['group'] = [{'k': 'idx', 'i': 1}] if r.random() < 0.5 else []
+            q['_names'] = ['gg', 'nn']
+        if r.random() < 0.5 and not q['group'] and not any(t['e'].get('k') == 'agg' for t in q['targets']):
+            keys = r.sample(names, min(len(names), r.randint(1, 2)))
+            q['order'] = [{'r': {'k': 'expr', 'e': col(n)}, 'desc': r.random() < 0.5} for n in keys]
+        if r.random() < 0.3:
+            n = r.choice(names)
+            q['where'] = r.choice([{'k': 'un', 'op': 'isnotnull', 'a': col(n)}, {'k': 'un', 'op': 'isnull', 'a': col(n)}, col(n)])
+        q['distinct'] = r.random() < 0.2
+        q['limit'] = r.choice([-1, -1, -1, 0, 1, 3])
+        return q
+
+
+def strip_private(q):
+    q.pop('_names', None)
+    if selectq.has_sub(q):
+        strip_private(q['sub'])
+    else:
+        q.setdefault('sub', {'k': 'none'})
+    q.setdefault('star', False)
 
 
 def record_and_validate(ctx, family, ncases, maxrows, extra_judge=None):
@@ -336,6 +382,7 @@ def record_and_validate(ctx, family, ncases, maxrows, extra_judge=None):
             for _ in range(12):
                 cid += 1
                 q = gen.query(family)
+                strip_private(q)
                 try:
                     stmt = selectq.query_ast(q, 'g')
                     w = q['where']
@@ -350,7 +397,7 @@ def record_and_validate(ctx, family, ncases, maxrows, extra_judge=None):
                 except bql.OutOfDomain:
                     continue
                 status, desc, out = selectq.run_query(conn, stmt)
-                ev = {'id': cid, 'sch': SCH, 'rows': rows, 'q': q, 'ok': status != 'rejected', 'names': [], 'types': [], 'out': []}
+                ev = {'id': cid, 'sch': SCH, 'cols': [c for c, _ in COLS], 'rows': rows, 'q': q, 'ok': status != 'rejected', 'names': [], 'types': [], 'out': []}
                 if status == 'error':
                     ev['exc'] = '%s: %s' % (type(desc).__name__, str(desc)[:200])
                     ev['out'] = [[['exc', 0, 1, type(desc).__name__]]]
@@ -448,7 +495,7 @@ def typed_tables_leg(ctx, family, nstmts):
                         keys = [k for k in keys if k != vis[0]] or [hidden[0]]      # a visible target left uncovered: must be rejected
                     q['group'] = [{'k': 'expr', 'e': col(c)} for c in keys]
                 status, desc, out = selectq.run_query(conn, selectq.query_ast(q, tname))
-                ev = {'id': n + 1, 'sch': sch, 'rows': rows, 'q': q, 'ok': status != 'rejected', 'names': [], 'types': [], 'out': []}
+                ev = {'id': n + 1, 'sch': sch, 'cols': names, 'rows': rows, 'q': q, 'ok': status != 'rejected', 'names': [], 'types': [], 'out': []}
                 if status == 'ok':
                     ev['names'] = [c.name for c in desc]
                     ev['types'] = [([k for k, v in selectq.TYPEMAP.items() if v is c.datatype] or [c.datatype.__name__])[0] for c in desc]
